@@ -33,6 +33,8 @@ type Case struct {
 	Req    worker.Req `json:"req"`
 	Origin string     `json:"origin"`
 	Ops    []string   `json:"ops,omitempty"`
+	// XMPDepth > 0: the input is the XMP root tag followed by XMPDepth x "<a:b>" (megabytes: stored as a number)
+	XMPDepth int `json:"xmp_nesting_depth,omitempty"`
 }
 
 var rejectErrs = []string{"error imagetype not found", "error metadata reading not supported", "error the data is not long enough", "verif: unknown entry"}
@@ -79,6 +81,9 @@ func panicClass(p string) string {
 }
 
 func eval(c Case) *pbt.Fail {
+	if c.XMPDepth > 0 && c.Req.Input == nil {
+		c.Req.Input = append([]byte("<x:xmpmeta xmlns:x=\"adobe:ns:meta/\">"), bytes.Repeat([]byte("<a:b>"), c.XMPDepth)...)
+	}
 	r := cl.Do(c.Req, worker.Watchdog(len(c.Req.Input)))
 	cls := []string{"entry:" + c.Req.Entry, "origin:" + c.Origin}
 	if c.Req.Reader.Mode != "" {
@@ -286,6 +291,18 @@ func TestProp(t *testing.T) {
 				}
 			}
 		})
+	}
+	// XMP: start tags nested 1000 .. 4,000,000 deep (the reader descends one call frame per level)
+	if complete && os.Getenv("VERIF_SKIP_ENUM") == "" && rec.Env.Shard == 0 {
+		for _, depth := range []int{1000, 100000, 4000000} {
+			c := Case{Req: worker.Req{Entry: "ParseXmp"}, XMPDepth: depth, Origin: fmt.Sprintf("xmp-nesting-depth:%d", depth)}
+			if f := eval(c); f != nil {
+				if pbt.Report(t, rec, chk.Name, c, f) {
+					complete = false
+					goto done
+				}
+			}
+		}
 	}
 	// HEIF: the Exif item's offset swept across two 4 KiB reader-buffer boundaries, with and without the item's marker
 	if complete && os.Getenv("VERIF_SKIP_ENUM") == "" {
